@@ -1,11 +1,12 @@
-SPECIFICATION SSpec
+SPECIFICATION MemoSpec
 CONSTANTS
   Names = {"a", "b"}
   Values = {"v1", "v2"}
   WithEmpty = FALSE
-  MaxPathLen = 4
+  MaxPathLen = 3
   ModelKinds = {"timeout"}
-  ChainLen = 3
+  ChainLen = 2
   Changes = {}
-INVARIANTS Emit
+INVARIANTS TypeOK MemoFreshOK
+PROPERTIES MemoChangeRespected
 CHECK_DEADLOCK FALSE
